@@ -35,3 +35,18 @@ Proof.
 Qed.
 End Knill.
 Print Assumptions knill_product.
+
+(* one factor as a circuit: P^-1 ; (phase c+1 on |z>, identity elsewhere) ; P  with  P^-1 P = 1 :
+   P (1 + c |z><z|) P^-1 = 1 + c (P e_z)(e_z^T P^-1), the rank-one term built from the prepared column *)
+Section Factor.
+Variable (R : comRingType) (n : nat).
+Variables (P Pinv : 'M[R]_n) (z : 'I_n) (c : R).
+Hypothesis PPinv : P *m Pinv = 1%:M.
+Theorem knill_factor :
+  P *m (1%:M + c *: delta_mx z z) *m Pinv = 1%:M + c *: (col z P *m row z Pinv).
+Proof.
+  rewrite mulmxDr mulmx1 mulmxDl PPinv. congr (_ + _).
+  rewrite -scalemxAr -scalemxAl. congr (_ *: _).
+  by rewrite -(mul_delta_mx (0 : 'I_1) z z) mulmxA -colE -mulmxA -rowE.
+Qed.
+End Factor.
